@@ -34,6 +34,7 @@ PL_CFG = """CONSTANTS
   F = %(F)s
   MaxLoops = %(MaxLoops)s
   Force = %(Force)s
+  RemakeMissing = TRUE
   MaxPages = %(MaxPages)s
   Chgs = %(Chgs)s
   NoPos = 0
@@ -143,6 +144,12 @@ def run(ctx):
     if "PagesBound" not in nf.violated:
         raise MachineryError("non-vacuity: PageLoop without the progress guarantee must violate PagesBound, TLC says %s" % nf.violated)
     design["no-progress-guarantee"] = {"violates": "PagesBound", **nf.as_dict()}
+    pf = ctx.tlc("PageLoop", "PageLoop_prefix.cfg", workers=8, timeout=600, allow_violation=True)
+    if "IndexSafe" not in pf.violated:
+        raise MachineryError("PageLoop with the unrepaired makeAllPages (RemakeMissing = FALSE) must violate IndexSafe, TLC says %s" % pf.violated)
+    design["makeAllPages-before-repair"] = {"violates": "IndexSafe", **pf.as_dict()}
+    os.remove(pf.out_path)
+    ctx.states -= pf.distinct
     os.remove(nf.out_path)
     ctx.states -= nf.distinct
 
@@ -310,5 +317,5 @@ def run(ctx):
         "size-bounded documents over the alphabet of feature bundles of Docs.tla (and, thorough tier, byte-level mutants of them and of resources_test); other documents are not covered",
         "fonts: weasyprint.otf and Ahem from resources_test; no network: only data: URLs and in-memory resources are fetched, other references fail to load (and must be skipped)",
         "a render is abnormal if it panics, kills the worker process (stack overflow, out of memory), does not return within 30 s, makes more than 2*len(document)+16 pages or more than 64 pagination rounds",
-        "PageLoop.tla assumes D1 (StableFootnotes): see the module; page steps of returning renders that the model does not allow are counted (returned_but_outside_the_model), not reported",
+        "page steps of returning renders that PageLoop.tla does not allow are counted (returned_but_outside_the_model), not reported",
     ])
